@@ -193,3 +193,13 @@ _r3("C02", "shortcut = plain also proved for initial centres that are not frames
 _r3("C05", "paired index lists are broadcast in the model and in the regenerated text (gen_c2_pairs = bpairs); streams over index dtypes, memory layout, mixed-dtype and object-dtype rows",
     "Pairs rs [c] = PairsScalar, Pairs [r] cs = ElemList, unequal non-broadcastable lengths raise (52 theorems).",
     "mixed-dtype and object-dtype streams are judged by the oracle only (typed values are outside the Z-valued Coq model).")
+
+
+def _r4(pid, text_add):
+    t = CLAIMED[pid]
+    CLAIMED[pid] = (t[0], t[1] + " Session 5: " + text_add, t[2], t[3])
+_r4("C09", "cost along the whole history from ANY supplied state (a run either returns the initial state unchanged or ends strictly cheaper; the cost after every prefix of the sweep list and after every proposal inside a sweep is a non-increasing chain; equal final cost means nothing was ever committed); one decision touches one medoid and keeps frame order; the set a random proposal is drawn from (pinned in the source by tr_cluster.py) is never empty and holds frame indices, so sweeps driven by any generator keep the guarantees; a proposal that already is a medoid is a no-op on the whole state (24 theorems).")
+_r4("C10", "partition_list and partition_indices joined end to end (the pair reads in the pieces exactly the value the flat index read), the split is the unique one with those lengths, label/distance pieces have the same shape, batches respect the frame budget and only the first can be empty (18 theorems).")
+_r4("C20", "the hysteresis automaton read frame by frame on the translated _rotamers; the reported transition frames are exactly where the state sequence may change (step function), are in range and bounded in number (20 theorems).")
+_r4("C03", "closed forms with the sliding window off: floor((n-1)/lag) pairs per trajectory, the matrix total, lag 1 coincides with the sliding window, strided <= sliding (19 theorems).")
+_r4("C01", "read off the invariant: no cluster is empty (label j is carried by centre j at distance 0), centres pairwise distinct, k <= n (15 theorems).")
